@@ -1,4 +1,484 @@
-import OtelVerif.Model.C09
-/-! C09 property theorems (stub) -/
+import OtelVerif.Lemmas.C09Graph
+/-!
+# C09 — the built pipeline graph routes data exactly as the configuration says
+
+Model: `Model/C09.lean` (mirror of `service/internal/graph/graph.go`).  All theorems quantify over every
+configuration (any number of pipelines, signals, components, connectors, support matrices); no size bounds.
+
+`cfg.WF` = what a Go map of pipelines and `PipelineConfig.Validate` guarantee (distinct pipeline ids, no
+processor listed twice in one pipeline).
+-/
 namespace OtelVerif.C09
+
+/-! ## the routes a configuration describes (no graph involved) -/
+
+/-- nodes visited, after the capabilities node of `p`, by a payload that entered pipeline `p`:
+its processors in configured order, then either one of its exporters, or one of its connectors and from
+there a pipeline that lists the connector as receiver (supported signal pair), recursively -/
+inductive PipeRoute (cfg : Cfg) : Pipeline → List Node → Prop
+  | direct (p : Pipeline) (e : CompId) : p ∈ cfg.pipes → e ∈ p.exps → cfg.isConn e = false →
+      PipeRoute cfg p (procNodes p ++ Node.fanout p.id :: [Node.exp p.id.sig e])
+  | via (p : Pipeline) (c : CompId) (q : Pipeline) (w : List Node) :
+      p ∈ cfg.pipes → c ∈ p.exps → cfg.isConn c = true →
+      q ∈ cfg.pipes → c ∈ q.recv → cfg.supp c p.id.sig q.id.sig = true →
+      PipeRoute cfg q w →
+      PipeRoute cfg p (procNodes p ++ Node.fanout p.id :: Node.conn p.id.sig q.id.sig c :: Node.cap q.id :: w)
+
+/-- routes of data emitted by receiver `r` of signal `s`: through every pipeline of that signal that lists `r` -/
+def CfgRoute (cfg : Cfg) (s : Sig) (r : CompId) (w : List Node) : Prop :=
+  ∃ p, p ∈ cfg.pipes ∧ p.id.sig = s ∧ r ∈ p.recv ∧ cfg.isConn r = false ∧
+    ∃ w', PipeRoute cfg p w' ∧ w = Node.cap p.id :: w'
+
+/-! ## routing -/
+
+/-- every route the configuration describes is a walk of the built graph -/
+theorem C09_route_is_walk (cfg : Cfg) (p : Pipeline) (w : List Node) (h : PipeRoute cfg p w) :
+    IsRouteWalk (edges cfg) (Node.cap p.id) w := by
+  induction h with
+  | direct p e hp he hc =>
+    refine walk_chain (fun x hx => mem_edges.mpr ⟨p, hp, Or.inr (Or.inl hx)⟩) rfl
+      (fun x hx => chain_nonexp x (List.mem_cons_of_mem _ hx)) ?_
+    exact ⟨rfl, mem_edges.mpr ⟨p, hp, Or.inr (Or.inr ⟨rfl, mem_pipeExpNodes.mpr (Or.inl ⟨e, he, hc, rfl⟩)⟩)⟩, rfl⟩
+  | via p c q w hp hce hic hq hcr hs _ ih =>
+    refine walk_chain (fun x hx => mem_edges.mpr ⟨p, hp, Or.inr (Or.inl hx)⟩) rfl
+      (fun x hx => chain_nonexp x (List.mem_cons_of_mem _ hx)) ?_
+    refine ⟨rfl, mem_edges.mpr ⟨p, hp, Or.inr (Or.inr ⟨rfl, mem_pipeExpNodes.mpr (Or.inr ⟨c, hce, hic, q, hq, hcr, hs, rfl⟩)⟩)⟩, ?_⟩
+    exact ⟨rfl, mem_edges.mpr ⟨q, hq, Or.inl ⟨mem_pipeRecvNodes.mpr (Or.inr ⟨c, hcr, hic, p, hp, hce, hs, rfl⟩), rfl⟩⟩, ih⟩
+
+/-- every walk of the built graph from a pipeline's entry to an exporter is a route the configuration describes -/
+theorem C09_walk_is_route (cfg : Cfg) (wf : cfg.WF) : ∀ (n : Nat) (w : List Node), w.length ≤ n →
+    ∀ p, p ∈ cfg.pipes → IsRouteWalk (edges cfg) (Node.cap p.id) w → PipeRoute cfg p w := by
+  intro n
+  induction n with
+  | zero =>
+    intro w hlen p _ hw
+    have : w = [] := List.eq_nil_of_length_eq_zero (Nat.le_zero.mp hlen)
+    subst this
+    cases hw
+  | succ n ih =>
+    intro w hlen p hp hw
+    obtain ⟨rest, hr, hz⟩ := walk_forced (procNodes p) (Node.cap p.id) w (chain_nodup wf hp) chain_nonexp
+      (fun x y hx hxy => chain_out wf hp hx hxy) hw
+    subst hr
+    cases rest with
+    | nil => cases hz
+    | cons e rest' =>
+      obtain ⟨_, hE, hw'⟩ := hz
+      rcases mem_pipeExpNodes.mp (fanout_out wf hp hE) with ⟨x, hx, hc, rfl⟩ | ⟨c, hce, hic, q, _, _, _, rfl⟩
+      · cases rest' with
+        | nil => exact PipeRoute.direct p x hp hx hc
+        | cons m r => exact absurd hw'.1 (by simp [Node.isExp])
+      · cases rest' with
+        | nil => exact absurd hw' (by simp [IsRouteWalk, Node.isExp])
+        | cons m rest'' =>
+          obtain ⟨_, hE2, hw''⟩ := hw'
+          obtain ⟨q', hq', hmem, rfl⟩ := src_out (Or.inr ⟨_, _, _, rfl⟩) hE2
+          rcases mem_pipeRecvNodes.mp hmem with ⟨r, _, _, h'⟩ | ⟨c', hcr', _, p'', _, _, hs', h'⟩
+          · cases h'
+          · injection h' with h1 h2 h3
+            subst h3
+            have hlen' : rest''.length ≤ n := by
+              simp only [List.length_append, List.length_cons] at hlen
+              omega
+            have hroute := ih rest'' hlen' q' hq' hw''
+            rw [← h1] at hs'
+            rw [h2]
+            exact PipeRoute.via p c q' rest'' hp hce hic hq' hcr' hs' hroute
+
+/-- **routing, graph level**: the walks of the built graph from receiver `(s, r)` to exporters are exactly
+the routes the configuration describes -/
+theorem C09_routing (cfg : Cfg) (wf : cfg.WF) (s : Sig) (r : CompId) (w : List Node) :
+    IsRouteWalk (edges cfg) (Node.recv s r) w ↔ CfgRoute cfg s r w := by
+  constructor
+  · intro hw
+    cases w with
+    | nil => cases hw
+    | cons m w' =>
+      obtain ⟨_, hE, hw'⟩ := hw
+      obtain ⟨p, hp, hmem, rfl⟩ := src_out (Or.inl ⟨_, _, rfl⟩) hE
+      rcases mem_pipeRecvNodes.mp hmem with ⟨r', hr', hc', h'⟩ | ⟨c', _, _, p'', _, _, _, h'⟩
+      · injection h' with h1 h2
+        subst h2
+        exact ⟨p, hp, h1.symm, hr', hc', w', C09_walk_is_route cfg wf w'.length w' (Nat.le_refl _) p hp hw', rfl⟩
+      · cases h'
+  · rintro ⟨p, hp, rfl, hr, hc, w', hroute, rfl⟩
+    exact ⟨rfl, mem_edges.mpr ⟨p, hp, Or.inl ⟨mem_pipeRecvNodes.mpr (Or.inl ⟨r, hr, hc, rfl⟩), rfl⟩⟩,
+      C09_route_is_walk cfg p w' hroute⟩
+
+/-- **routing, run time**: when the configuration is accepted, pushing a payload into receiver `(s, r)`
+terminates and produces one delivery per configured route and nothing else (`ws` lists the visited nodes of
+every delivery; the exporter is the last node, `trailOf` its processors/connectors in order) -/
+theorem C09_delivery (cfg : Cfg) (wf : cfg.WF) (hb : build cfg = none) (s : Sig) (r : CompId)
+    (hn : Node.recv s r ∈ nodes cfg) :
+    ∃ k ws, deliver (succ cfg) k (Node.recv s r) = some ws ∧ ws.Nodup ∧ ∀ w, w ∈ ws ↔ CfgRoute cfg s r w := by
+  have hsort : sortable (succ cfg) (nodes cfg) = true := by
+    simp only [build] at hb
+    by_cases h1 : createNodesOk cfg = true
+    · by_cases h2 : sortable (succOf (edges cfg)) (nodes cfg) = true
+      · exact h2
+      · simp [h1, h2] at hb
+    · simp [h1] at hb
+  obtain ⟨ws, hws⟩ := peel_deliver _ _ (sortable_mem hsort hn)
+  have hspec := deliver_spec (edges cfg) _ _ ws hws
+  exact ⟨_, ws, hws, hspec.1, fun w => (hspec.2 w).trans (C09_routing cfg wf s r w)⟩
+
+/-- the outcome does not depend on the fuel given to the model's recursion -/
+theorem C09_delivery_unique (cfg : Cfg) (k k' : Nat) (n : Node) (a b : List (List Node))
+    (h1 : deliver (succ cfg) k n = some a) (h2 : deliver (succ cfg) k' n = some b) : a = b :=
+  deliver_det _ h1 h2
+
+/-- processors in configured order, per pipeline: what the payload shows at the exporter on a direct route -/
+theorem C09_trail_direct (p : Pipeline) (e : CompId) :
+    trailOf (Node.cap p.id :: (procNodes p ++ Node.fanout p.id :: [Node.exp p.id.sig e])) = procNodes p := by
+  simp [trailOf, procNodes]
+
+/-! ## instance sharing -/
+
+/-- one node (= one component instance) per key -/
+theorem C09_nodes_nodup (cfg : Cfg) : (nodes cfg).Nodup := nodup_dedup _
+
+/-- receivers: one instance per (signal, id) used, whatever the number of pipelines of that signal listing it -/
+theorem C09_sharing_receivers (cfg : Cfg) (s : Sig) (r : CompId) :
+    Node.recv s r ∈ nodes cfg ↔ ∃ p, p ∈ cfg.pipes ∧ p.id.sig = s ∧ r ∈ p.recv ∧ cfg.isConn r = false := by
+  rw [mem_nodes]
+  constructor
+  · rintro ⟨p, hp, h⟩
+    simp only [pipeNodes, List.mem_append, List.mem_singleton, mem_pipeRecvNodes, mem_pipeExpNodes, procNodes,
+      List.mem_map] at h
+    rcases h with (((((⟨r', hr', hc', h'⟩ | ⟨_, _, _, _, _, _, _, h'⟩) | h') | ⟨_, _, h'⟩) | h') |
+      (⟨_, _, _, h'⟩ | ⟨_, _, _, _, _, _, _, h'⟩)) <;> try cases h'
+    exact ⟨p, hp, rfl, hr', hc'⟩
+  · rintro ⟨p, hp, rfl, hr, hc⟩
+    refine ⟨p, hp, ?_⟩
+    simp only [pipeNodes, List.mem_append]
+    exact Or.inl (Or.inl (Or.inl (Or.inl (mem_pipeRecvNodes.mpr (Or.inl ⟨r, hr, hc, rfl⟩)))))
+
+theorem C09_sharing_exporters (cfg : Cfg) (s : Sig) (e : CompId) :
+    Node.exp s e ∈ nodes cfg ↔ ∃ p, p ∈ cfg.pipes ∧ p.id.sig = s ∧ e ∈ p.exps ∧ cfg.isConn e = false := by
+  rw [mem_nodes]
+  constructor
+  · rintro ⟨p, hp, h⟩
+    simp only [pipeNodes, List.mem_append, List.mem_singleton, mem_pipeRecvNodes, mem_pipeExpNodes, procNodes,
+      List.mem_map] at h
+    rcases h with (((((⟨_, _, _, h'⟩ | ⟨_, _, _, _, _, _, _, h'⟩) | h') | ⟨_, _, h'⟩) | h') |
+      (⟨e', he', hc', h'⟩ | ⟨_, _, _, _, _, _, _, h'⟩)) <;> try cases h'
+    exact ⟨p, hp, rfl, he', hc'⟩
+  · rintro ⟨p, hp, rfl, he, hc⟩
+    refine ⟨p, hp, ?_⟩
+    simp only [pipeNodes, List.mem_append]
+    exact Or.inr (mem_pipeExpNodes.mpr (Or.inl ⟨e, he, hc, rfl⟩))
+
+/-- processors: one instance per (pipeline, id) occurrence -/
+theorem C09_sharing_processors (cfg : Cfg) (pid : PipeId) (x : CompId) :
+    Node.proc pid x ∈ nodes cfg ↔ ∃ p, p ∈ cfg.pipes ∧ p.id = pid ∧ x ∈ p.procs := by
+  rw [mem_nodes]
+  constructor
+  · rintro ⟨p, hp, h⟩
+    simp only [pipeNodes, List.mem_append, List.mem_singleton, mem_pipeRecvNodes, mem_pipeExpNodes, procNodes,
+      List.mem_map] at h
+    rcases h with (((((⟨_, _, _, h'⟩ | ⟨_, _, _, _, _, _, _, h'⟩) | h') | ⟨x', hx', h'⟩) | h') |
+      (⟨_, _, _, h'⟩ | ⟨_, _, _, _, _, _, _, h'⟩)) <;> try cases h'
+    exact ⟨p, hp, rfl, hx'⟩
+  · rintro ⟨p, hp, rfl, hx⟩
+    refine ⟨p, hp, ?_⟩
+    simp only [pipeNodes, List.mem_append, procNodes, List.mem_map]
+    exact Or.inl (Or.inl (Or.inr ⟨x, hx, rfl⟩))
+
+/-- connectors: one instance per (exporter-side signal, receiver-side signal) pair it is used for and supports -/
+theorem C09_sharing_connectors (cfg : Cfg) (es rs : Sig) (c : CompId) :
+    Node.conn es rs c ∈ nodes cfg ↔
+      cfg.isConn c = true ∧ cfg.supp c es rs = true ∧
+      (∃ p, p ∈ cfg.pipes ∧ p.id.sig = es ∧ c ∈ p.exps) ∧ (∃ q, q ∈ cfg.pipes ∧ q.id.sig = rs ∧ c ∈ q.recv) := by
+  rw [mem_nodes]
+  constructor
+  · rintro ⟨p, hp, h⟩
+    simp only [pipeNodes, List.mem_append, List.mem_singleton, mem_pipeRecvNodes, mem_pipeExpNodes, procNodes,
+      List.mem_map] at h
+    rcases h with (((((⟨_, _, _, h'⟩ | ⟨c', hc', hic, p', hp', hce, hs, h'⟩) | h') | ⟨_, _, h'⟩) | h') |
+      (⟨_, _, _, h'⟩ | ⟨c', hc', hic, q', hq', hcr, hs, h'⟩)) <;> try cases h'
+    · exact ⟨hic, hs, ⟨p', hp', rfl, hce⟩, ⟨p, hp, rfl, hc'⟩⟩
+    · exact ⟨hic, hs, ⟨p, hp, rfl, hc'⟩, ⟨q', hq', rfl, hcr⟩⟩
+  · rintro ⟨hic, hs, ⟨p, hp, rfl, hce⟩, ⟨q, hq, rfl, hcr⟩⟩
+    refine ⟨p, hp, ?_⟩
+    simp only [pipeNodes, List.mem_append]
+    exact Or.inr (mem_pipeExpNodes.mpr (Or.inr ⟨c, hce, hic, q, hq, hcr, hs, rfl⟩))
+
+/-! ## rejection: unsupported connector use -/
+
+/-- a configured connector is listed in some pipeline whose signal has no supported counterpart among the
+pipelines on its other side (this includes a connector used on one side only) -/
+def UnsupportedUse (cfg : Cfg) : Prop :=
+  ∃ c, cfg.isConn c = true ∧
+    ((∃ p, p ∈ cfg.pipes ∧ c ∈ p.exps ∧ ∀ q, q ∈ cfg.pipes → c ∈ q.recv → cfg.supp c p.id.sig q.id.sig = false) ∨
+     (∃ q, q ∈ cfg.pipes ∧ c ∈ q.recv ∧ ∀ p, p ∈ cfg.pipes → c ∈ p.exps → cfg.supp c p.id.sig q.id.sig = false))
+
+theorem mem_usedConns {cfg : Cfg} {c : CompId} :
+    c ∈ usedConns cfg ↔ cfg.isConn c = true ∧ ∃ p, p ∈ cfg.pipes ∧ (c ∈ p.recv ∨ c ∈ p.exps) := by
+  simp only [usedConns, mem_dedup, List.mem_flatMap, List.mem_filter, List.mem_append]
+  constructor
+  · rintro ⟨p, hp, h, hc⟩; exact ⟨hc, p, hp, h⟩
+  · rintro ⟨hc, p, hp, h⟩; exact ⟨p, hp, h, hc⟩
+
+theorem createNodesOk_false {cfg : Cfg} : createNodesOk cfg = false ↔ UnsupportedUse cfg := by
+  constructor
+  · intro h
+    have : ¬ ∀ c, c ∈ usedConns cfg → connValid cfg c = true := by
+      intro hall
+      have : createNodesOk cfg = true := by simpa [createNodesOk, List.all_eq_true] using hall
+      rw [this] at h; cases h
+    have : ∃ c, c ∈ usedConns cfg ∧ connValid cfg c = false := by
+      apply Classical.byContradiction
+      intro hne
+      apply this
+      intro c hc
+      cases hv : connValid cfg c with
+      | true => rfl
+      | false => exact absurd ⟨c, hc, hv⟩ hne
+    obtain ⟨c, hc, hv⟩ := this
+    obtain ⟨hic, _⟩ := mem_usedConns.mp hc
+    refine ⟨c, hic, ?_⟩
+    simp only [connValid, Bool.and_eq_false_iff, List.all_eq_false, asExp, asRecv, List.mem_filter,
+      decide_eq_true_eq, expOk, recvOk, List.any_eq_true, not_exists, not_and, Bool.not_eq_true] at hv
+    rcases hv with ⟨p, ⟨hp, hce⟩, hno⟩ | ⟨q, ⟨hq, hcr⟩, hno⟩
+    · exact Or.inl ⟨p, hp, hce, fun q hq hcr => hno q ⟨hq, hcr⟩⟩
+    · exact Or.inr ⟨q, hq, hcr, fun p hp hce => hno p ⟨hp, hce⟩⟩
+  · rintro ⟨c, hic, h⟩
+    cases hok : createNodesOk cfg with
+    | false => rfl
+    | true =>
+      exfalso
+      simp only [createNodesOk, List.all_eq_true] at hok
+      rcases h with ⟨p, hp, hce, hno⟩ | ⟨q, hq, hcr, hno⟩
+      · have hv := hok c (mem_usedConns.mpr ⟨hic, p, hp, Or.inr hce⟩)
+        simp only [connValid, Bool.and_eq_true, List.all_eq_true, asExp, asRecv, List.mem_filter,
+          decide_eq_true_eq, expOk, List.any_eq_true] at hv
+        obtain ⟨q, ⟨hq, hcr⟩, hs⟩ := hv.1 p ⟨hp, hce⟩
+        rw [hno q hq hcr] at hs; cases hs
+      · have hv := hok c (mem_usedConns.mpr ⟨hic, q, hq, Or.inl hcr⟩)
+        simp only [connValid, Bool.and_eq_true, List.all_eq_true, asExp, asRecv, List.mem_filter,
+          decide_eq_true_eq, recvOk, List.any_eq_true] at hv
+        obtain ⟨p, ⟨hp, hce⟩, hs⟩ := hv.2 q ⟨hq, hcr⟩
+        rw [hno p hp hce] at hs; cases hs
+
+/-- **rejection (connector)**: the build fails with the connector error exactly when some connector use has no
+supported counterpart -/
+theorem C09_unsupported (cfg : Cfg) : build cfg = some .connector ↔ UnsupportedUse cfg := by
+  rw [← createNodesOk_false]
+  simp only [build]
+  cases createNodesOk cfg with
+  | false => simp
+  | true =>
+    by_cases h2 : sortable (succOf (edges cfg)) (nodes cfg) = true <;> simp [h2]
+
+/-! ## rejection: connector cycles -/
+
+/-- one or more connector hops between pipelines -/
+inductive FeedsPath (cfg : Cfg) : Pipeline → Pipeline → Prop
+  | single {p q : Pipeline} : p ∈ cfg.pipes → q ∈ cfg.pipes → feeds cfg p q = true → FeedsPath cfg p q
+  | cons {p q r : Pipeline} : p ∈ cfg.pipes → q ∈ cfg.pipes → feeds cfg p q = true → FeedsPath cfg q r → FeedsPath cfg p r
+
+/-- the connector usage of the configuration forms a cycle -/
+def ConnectorCycle (cfg : Cfg) : Prop := ∃ p, FeedsPath cfg p p
+
+theorem feeds_path {cfg : Cfg} {p q : Pipeline} (hp : p ∈ cfg.pipes) (hq : q ∈ cfg.pipes) (h : feeds cfg p q = true) :
+    Path (edges cfg) (Node.cap p.id) (Node.cap q.id) := by
+  simp only [feeds, List.any_eq_true, Bool.and_eq_true, decide_eq_true_eq] at h
+  obtain ⟨c, hce, ⟨hic, hcr⟩, hs⟩ := h
+  have h1 : Path (edges cfg) (Node.cap p.id) (Node.fanout p.id) :=
+    path_chain (l := procNodes p) (fun x hx => mem_edges.mpr ⟨p, hp, Or.inr (Or.inl hx)⟩)
+  have h2 : (Node.fanout p.id, Node.conn p.id.sig q.id.sig c) ∈ edges cfg :=
+    mem_edges.mpr ⟨p, hp, Or.inr (Or.inr ⟨rfl, mem_pipeExpNodes.mpr (Or.inr ⟨c, hce, hic, q, hq, hcr, hs, rfl⟩)⟩)⟩
+  have h3 : (Node.conn p.id.sig q.id.sig c, Node.cap q.id) ∈ edges cfg :=
+    mem_edges.mpr ⟨q, hq, Or.inl ⟨mem_pipeRecvNodes.mpr (Or.inr ⟨c, hcr, hic, p, hp, hce, hs, rfl⟩), rfl⟩⟩
+  exact h1.trans (Path.cons h2 (Path.single h3))
+
+theorem feedsPath_path {cfg : Cfg} {p q : Pipeline} (h : FeedsPath cfg p q) :
+    Path (edges cfg) (Node.cap p.id) (Node.cap q.id) := by
+  induction h with
+  | single hp hq h => exact feeds_path hp hq h
+  | cons hp hq h _ ih => exact (feeds_path hp hq h).trans ih
+
+theorem FeedsPath.head_mem {cfg : Cfg} {p q : Pipeline} (h : FeedsPath cfg p q) : p ∈ cfg.pipes := by
+  cases h with
+  | single hp _ _ => exact hp
+  | cons hp _ _ _ => exact hp
+
+/-- **rejection (cycle)**: a configuration whose connector usage forms a cycle is never accepted; when its
+connector uses are all supported the error is the cycle error -/
+theorem C09_cycle_rejected (cfg : Cfg) (hc : ConnectorCycle cfg) : build cfg ≠ none ∧
+    (createNodesOk cfg = true → build cfg = some .cycle) := by
+  obtain ⟨p, hp⟩ := hc
+  have hpath := feedsPath_path hp
+  have hmem := cap_mem_nodes hp.head_mem
+  have hns : sortable (succOf (edges cfg)) (nodes cfg) = false := by
+    cases hs : sortable (succOf (edges cfg)) (nodes cfg) with
+    | false => rfl
+    | true => exact absurd hpath (peel_acyclic _ _ (sortable_mem hs hmem))
+  constructor
+  · simp only [build, hns]
+    cases createNodesOk cfg <;> simp
+  · intro hok
+    simp [build, hok, hns]
+
+/-- an accepted configuration has no closed walk through any node of its graph, hence no connector cycle -/
+theorem C09_accepted_acyclic (cfg : Cfg) (hb : build cfg = none) :
+    (∀ n, n ∈ nodes cfg → ¬ Path (edges cfg) n n) ∧ ¬ ConnectorCycle cfg ∧ ¬ UnsupportedUse cfg := by
+  have hnc : ¬ ConnectorCycle cfg := fun hc => (C09_cycle_rejected cfg hc).1 hb
+  have hnu : ¬ UnsupportedUse cfg := fun hu => by
+    have := (C09_unsupported cfg).mpr hu
+    rw [hb] at this; cases this
+  refine ⟨fun n hn => ?_, hnc, hnu⟩
+  have hsort : sortable (succOf (edges cfg)) (nodes cfg) = true := by
+    simp only [build] at hb
+    by_cases h1 : createNodesOk cfg = true
+    · by_cases h2 : sortable (succOf (edges cfg)) (nodes cfg) = true
+      · exact h2
+      · simp [h1, h2] at hb
+    · simp [h1] at hb
+  exact peel_acyclic _ _ (sortable_mem hsort hn)
+
+/-! ## acceptance of valid configurations
+
+`C09_delivery` assumes the configuration was accepted.  The remaining clause — every well-formed configuration
+without unsupported use and without connector cycle *is* accepted — is stated in full below.  Proved part: a
+rejection with the cycle error is always justified by a genuine closed walk of the component graph (so
+`topo.Sort` had to fail).  Not proved: the projection of that closed walk of nodes to a cycle of pipelines
+(`ConnectorCycle`); it is covered by the differential and by the `reject` oracle on every run. -/
+
+def C09_accepts_valid_full : Prop :=
+  ∀ cfg : Cfg, cfg.WF → ¬ UnsupportedUse cfg → ¬ ConnectorCycle cfg → build cfg = none
+
+/-- consecutive nodes are edges -/
+def ChainFrom (E : List (Node × Node)) : Node → List Node → Prop
+  | _, [] => True
+  | n, m :: l => (n, m) ∈ E ∧ ChainFrom E m l
+
+theorem chainFrom_path {E : List (Node × Node)} : ∀ (l : List Node) (n x : Node), ChainFrom E n l → x ∈ l → Path E n x := by
+  intro l
+  induction l with
+  | nil => intro n x _ hx; cases hx
+  | cons m l ih =>
+    intro n x hc hx
+    rcases List.mem_cons.mp hx with rfl | hx'
+    · exact Path.single hc.1
+    · exact Path.cons hc.1 (ih m x hc.2 hx')
+
+theorem chainFrom_dup {E : List (Node × Node)} : ∀ (l : List Node) (n : Node), ChainFrom E n l → ¬ (n :: l).Nodup →
+    ∃ x, x ∈ n :: l ∧ Path E x x := by
+  intro l
+  induction l with
+  | nil => intro n _ h; exact absurd (by simp) h
+  | cons m l ih =>
+    intro n hc hnd
+    by_cases hn : n ∈ m :: l
+    · exact ⟨n, List.mem_cons_self, chainFrom_path _ n n hc hn⟩
+    · have : ¬ (m :: l).Nodup := fun h => hnd (List.nodup_cons.mpr ⟨hn, h⟩)
+      obtain ⟨x, hx, hp⟩ := ih m hc.2 this
+      exact ⟨x, List.mem_cons_of_mem _ hx, hp⟩
+
+/-- an unmarked node starts a walk of any length through unmarked nodes -/
+theorem unmarked_chain {cfg : Cfg} : ∀ (k : Nat) (n : Node), n ∈ nodes cfg →
+    n ∉ peel (succ cfg) (nodes cfg) k → ∃ l, l.length = k ∧ ChainFrom (edges cfg) n l ∧ ∀ x, x ∈ l → x ∈ nodes cfg := by
+  intro k
+  induction k with
+  | zero => intro n _ _; exact ⟨[], rfl, trivial, fun x hx => by cases hx⟩
+  | succ k ih =>
+    intro n hn hnot
+    have : ∃ m, m ∈ succ cfg n ∧ m ∉ peel (succ cfg) (nodes cfg) k := by
+      apply Classical.byContradiction
+      intro hne
+      apply hnot
+      refine mem_peel_succ.mpr (Or.inr ⟨hn, fun m hm => ?_⟩)
+      apply Classical.byContradiction
+      intro hm'
+      exact hne ⟨m, hm, hm'⟩
+    obtain ⟨m, hm, hmnot⟩ := this
+    have hE : (n, m) ∈ edges cfg := mem_succOf.mp hm
+    obtain ⟨l, hl, hc, hmem⟩ := ih m (edge_target_mem hE) hmnot
+    refine ⟨m :: l, by simp [hl], ⟨hE, hc⟩, fun x hx => ?_⟩
+    rcases List.mem_cons.mp hx with rfl | hx'
+    · exact edge_target_mem hE
+    · exact hmem x hx'
+
+/-- proved part of acceptance: the cycle error is only returned when the component graph really has a
+directed cycle (pigeonhole on a walk of `|nodes|` edges through unmarked nodes) -/
+theorem C09_accepts_valid_partial (cfg : Cfg) (h : build cfg = some .cycle) :
+    ∃ n, n ∈ nodes cfg ∧ Path (edges cfg) n n := by
+  have hns : sortable (succ cfg) (nodes cfg) = false := by
+    simp only [build] at h
+    cases h1 : createNodesOk cfg with
+    | false => simp [h1] at h
+    | true =>
+      cases h2 : sortable (succOf (edges cfg)) (nodes cfg) with
+      | false => exact h2
+      | true => simp [h1, h2] at h
+  have : ∃ n, n ∈ nodes cfg ∧ n ∉ peel (succ cfg) (nodes cfg) (nodes cfg).length := by
+    apply Classical.byContradiction
+    intro hne
+    have : sortable (succ cfg) (nodes cfg) = true := by
+      simp only [sortable, List.all_eq_true, decide_eq_true_eq]
+      intro n hn
+      apply Classical.byContradiction
+      intro hn'
+      exact hne ⟨n, hn, hn'⟩
+    rw [this] at hns; cases hns
+  obtain ⟨n, hn, hnot⟩ := this
+  obtain ⟨l, hl, hc, hmem⟩ := unmarked_chain _ n hn hnot
+  have hnd : ¬ (n :: l).Nodup := by
+    intro hnd
+    have := List.Nodup.length_le_of_subset hnd (fun x hx => by
+      rcases List.mem_cons.mp hx with rfl | hx'
+      · exact hn
+      · exact hmem x hx')
+    simp only [List.length_cons, hl] at this
+    omega
+  obtain ⟨x, hx, hp⟩ := chainFrom_dup l n hc hnd
+  refine ⟨x, ?_, hp⟩
+  rcases List.mem_cons.mp hx with rfl | hx'
+  · exact hn
+  · exact hmem x hx'
+
+/-! ## non-vacuity -/
+
+/-- traces/0 and traces/1 share receiver 1 and exporter 1; traces/0 also feeds connector 5 into metrics/0 -/
+def exCfg : Cfg :=
+  { conns := [{ id := 5, supp := [(.traces, .metrics)] }],
+    pipes := [{ id := ⟨.traces, 0⟩, recv := [1], procs := [1, 2], exps := [5, 1] },
+              { id := ⟨.traces, 1⟩, recv := [1, 2], procs := [2], exps := [1] },
+              { id := ⟨.metrics, 0⟩, recv := [5], procs := [1], exps := [2] }] }
+
+example : build exCfg = none := by decide
+example : exCfg.WF := ⟨by decide, by decide⟩
+example : Node.recv .traces 1 ∈ nodes exCfg := by decide
+example : (nodes exCfg).filter Node.isComp =
+    [Node.proc ⟨.traces, 0⟩ 1, Node.proc ⟨.traces, 0⟩ 2, Node.recv .traces 1, Node.recv .traces 2,
+     Node.proc ⟨.traces, 1⟩ 2, Node.exp .traces 1, Node.conn .traces .metrics 5, Node.proc ⟨.metrics, 0⟩ 1,
+     Node.exp .metrics 2] := by decide
+/-- three deliveries from receiver traces/1: via the connector into metrics/0, and exporter 1 twice (once per pipeline) -/
+example : (deliver (succ exCfg) 12 (Node.recv .traces 1)).map (·.map (fun w => (w.getLast?, trailOf w))) =
+    some [(some (Node.exp .metrics 2), [Node.proc ⟨.traces, 0⟩ 1, Node.proc ⟨.traces, 0⟩ 2, Node.conn .traces .metrics 5, Node.proc ⟨.metrics, 0⟩ 1]),
+          (some (Node.exp .traces 1), [Node.proc ⟨.traces, 0⟩ 1, Node.proc ⟨.traces, 0⟩ 2]),
+          (some (Node.exp .traces 1), [Node.proc ⟨.traces, 1⟩ 2])] := by decide
+
+/-- a two-pipeline connector cycle across signals -/
+def exCyc : Cfg :=
+  { conns := [{ id := 5, supp := [(.traces, .metrics)] }, { id := 6, supp := [(.metrics, .traces)] }],
+    pipes := [{ id := ⟨.traces, 0⟩, recv := [1, 6], procs := [1], exps := [5] },
+              { id := ⟨.metrics, 0⟩, recv := [5], procs := [], exps := [6, 1] }] }
+
+example : build exCyc = some .cycle := by decide
+example : ConnectorCycle exCyc :=
+  ⟨exCyc.pipes[0], FeedsPath.cons (q := exCyc.pipes[1]) (by decide) (by decide) (by decide)
+    (FeedsPath.single (by decide) (by decide) (by decide))⟩
+
+/-- connector 5 supports only traces→metrics but is also listed as receiver of a logs pipeline and nowhere else: rejected -/
+def exUnsup : Cfg :=
+  { conns := [{ id := 5, supp := [(.traces, .metrics)] }],
+    pipes := [{ id := ⟨.logs, 0⟩, recv := [5], procs := [], exps := [1] },
+              { id := ⟨.logs, 1⟩, recv := [1], procs := [], exps := [5] }] }
+
+example : build exUnsup = some .connector := by decide
+example : UnsupportedUse exUnsup :=
+  ⟨5, by decide, Or.inl ⟨exUnsup.pipes[1], by decide, by decide, by decide⟩⟩
+
 end OtelVerif.C09
